@@ -127,6 +127,8 @@ def handleEvalCheck : List String → Option String
     let k ← k.toNat?
     let la ← Proto.parseNats la
     let d : LaDfa := ⟨p0, tr, k⟩
+    -- the property quantifies over automata parol produces (sorted); malformed ones only test totality
+    if !sortedTrans tr then (if reply == ["panic"] then some "fail panic" else some "ok") else
     match reply with
     | ["ok", p] => do
       let p ← Proto.parseInt p
